@@ -7,7 +7,7 @@
 From Coq Require Import List Arith ZArith Bool Reals.
 From T4V Require Import Base.Scalar C07.Model C07.ProofsAlgebra C07.ProofsComb C07.ProofsMain
   C07.ProofsGeom C07.ProofsExample C07.ProofsDomain C07.ProofsRhp C07.ModelDevelop C07.ProofsDevelop
-  C07.ProofsErrors C07.LinkC03 C07.ProofsCaps.
+  C07.ProofsErrors C07.LinkC03 C07.ProofsCaps C07.ProofsFlip.
 Import ListNotations.
 Open Scope R_scope.
 
@@ -548,3 +548,22 @@ Theorem C07_caps_parallel_to_axis :
   hexLatticeBaseVectors RS surfs = Err EZeroDiv.
 Proof. exact caps_parallel. Qed.
 Print Assumptions C07_caps_parallel_to_axis.
+
+(* an admissible prism with exactly one of its six side senses flipped (the cell
+   written on the wrong side of the plane listed at position i0): the two
+   neighbouring intersections judged by that plane are rejected, the one that
+   meets beyond it is accepted, hexSortSides counts five intersections and
+   raises LatticeError — for every listing order, every position, 6 or 8 planes *)
+Theorem C07_flipped_sense_lattice_error :
+  forall (c u : rvec) (w : nat -> rvec) (l : list nat) (surfs : list rsurf) (i0 : nat),
+  In l all_listings -> (i0 < 6)%nat ->
+  (forall i, (i < 6)%nat -> carries u w (pl surfs i) (side_at l i)) ->
+  (forall i, (i < 6)%nat -> i <> i0 -> sd surfs i = planeSide RS c (pl surfs i) /\ sd surfs i <> 0%Z) ->
+  (sd surfs i0 = (- planeSide RS c (pl surfs i0))%Z /\ sd surfs i0 <> 0%Z) ->
+  (forall k, wv w (k + 3) = vsub (vscale 2 c) (wv w k)) ->
+  ((forall k, 0 < det3 (vsub (wv w (k + 1)) (wv w k)) (vsub (wv w (k + 2)) (wv w (k + 1))) u) \/
+   (forall k, det3 (vsub (wv w (k + 1)) (wv w k)) (vsub (wv w (k + 2)) (wv w (k + 1))) u < 0)) ->
+  (List.length surfs = 6%nat \/ List.length surfs = 8%nat) ->
+  hexLatticeBaseVectors RS surfs = Err ELattice.
+Proof. exact flipped_sense_lattice_error. Qed.
+Print Assumptions C07_flipped_sense_lattice_error.
